@@ -145,6 +145,25 @@ def functional_replay(chk, g, rng, max_hist):
                     chk.violation({"clause": "FoldEqClosed", "site": "functional", "kind": rk, "variant": variant},
                                   {"history": hist, "params": P.asdict(), "expected": exp, "observed": got,
                                    "closed_form": peek})
+        # inferno.trace_cumulative_value: x <- decay * x + scale * h, the scaled cumulative trace without amplitude and
+        # without matching: the closed form of "scum" at amplitude 0 on histories whose every observation matches
+        if rk == "scum" and all(o["m"] for o in hist):
+            import inferno as _inf, torch as _torch, math as _math
+            for pd in PARAM_SETS[:3]:
+                P0 = Params(D=4, **dict(pd, A=0.0))
+                exp, mag = P0.value(peek)
+                tr = None
+                for o in hist:
+                    tr = _inf.trace_cumulative_value(_torch.tensor([o["x"] * P0.u], dtype=_torch.float32), tr,
+                                                     decay=_math.exp(-P0.dt / P0.tau), scale=P0.S)
+                got = float(tr.reshape(-1)[0])
+                n += 1
+                chk.nontrivial.add(("functional", "value", k, pd["dt"]))
+                from ..symeval import close
+                if not close(exp, got, mag):
+                    chk.violation({"clause": "FoldEqClosed", "site": "functional", "kind": "value", "variant": "plain"},
+                                  {"history": hist, "params": P0.asdict(), "expected": exp, "observed": got,
+                                   "closed_form": peek})
     chk.evaluations += n
     chk.extra["functional_folds"] = chk.extra.get("functional_folds", 0) + n
     chk.note(f"functional trace_* folds: {n} (history x parameter set x entry point)")
